@@ -244,17 +244,99 @@ fn images_for(cache: &ImageCache, case: &Value) -> Arc<Images> {
     im
 }
 
-fn run_history(rt: &tokio::runtime::Runtime, case: &Value, dir: &Path, images: &Images, exe: &Path) -> Value {
+/// The external builder: ONE child process per replay run (QE_IPC_CACHE=1) that runs
+/// `ipc_cache::ensure_sidecar` on every path it is sent.  It is always handed a FRESH alias of the
+/// history's directory (a new symlink), so none of its path-keyed caches can carry anything over:
+/// every request behaves like a new process.
+pub struct Helper {
+    child: std::process::Child,
+    stdin: std::process::ChildStdin,
+    stdout: std::io::BufReader<std::process::ChildStdout>,
+}
+
+impl Helper {
+    pub fn spawn(exe: &Path) -> Helper {
+        let mut child = std::process::Command::new(exe)
+            .arg("cache-helper")
+            .env("QE_IPC_CACHE", "1")
+            .env("RAYON_NUM_THREADS", "2")
+            .stdin(std::process::Stdio::piped())
+            .stdout(std::process::Stdio::piped())
+            .spawn()
+            .expect("spawn cache-helper");
+        let stdin = child.stdin.take().unwrap();
+        let stdout = std::io::BufReader::new(child.stdout.take().unwrap());
+        Helper { child, stdin, stdout }
+    }
+    pub fn build(&mut self, path: &Path) -> Value {
+        use std::io::{BufRead, Write};
+        writeln!(self.stdin, "{}", path.display()).unwrap();
+        self.stdin.flush().unwrap();
+        let mut line = String::new();
+        self.stdout.read_line(&mut line).expect("helper died");
+        serde_json::from_str(&line).unwrap_or_else(|_| panic!("helper said {line:?}"))
+    }
+}
+
+impl Drop for Helper {
+    fn drop(&mut self) {
+        let _ = self.child.kill();
+        let _ = self.child.wait();
+    }
+}
+
+/// qev cache-helper: read parquet paths from stdin, ensure_sidecar each, answer one JSON line each
+pub fn helper(_a: &[String]) -> i32 {
+    use std::io::{BufRead, Write};
+    quiet_panics();
+    let stdin = std::io::stdin();
+    let mut out = std::io::stdout();
+    for line in stdin.lock().lines() {
+        let line = match line {
+            Ok(l) => l,
+            Err(_) => break,
+        };
+        let p = PathBuf::from(line.trim());
+        let r = catch(std::panic::AssertUnwindSafe(|| query_engine::storage::ipc_cache::ensure_sidecar(&p).is_some()));
+        let v = match r {
+            Ok(b) => json!({"built": b}),
+            Err(m) => json!({"panic": m}),
+        };
+        writeln!(out, "{v}").unwrap();
+        out.flush().unwrap();
+    }
+    0
+}
+
+fn four_statements(rt: &tokio::runtime::Runtime, ctx: &query_engine::execution::ExecutionContext) -> Value {
+    let mut answers = serde_json::Map::new();
+    for (kind, sql) in STATEMENTS.iter() {
+        answers.insert(kind.to_string(), run_stmt(rt, ctx, sql));
+    }
+    Value::Object(answers)
+}
+
+fn run_history(rt: &tokio::runtime::Runtime, case: &Value, dir: &Path, images: &Images, exe: &Path, helper: &Mutex<Helper>) -> Value {
     let _ = std::fs::remove_dir_all(dir);
-    std::fs::create_dir_all(dir).unwrap();
+    let real = dir.join("d");
+    std::fs::create_dir_all(&real).unwrap();
     let repl = case["repl"].as_i64().unwrap_or(0);
     let shared = case["shared_ctx"].as_i64().unwrap_or(0) != 0;
-    let path_of = |p: i64| dir.join(format!("p{p}.parquet"));
+    let xreal = case["xreal"].as_i64().unwrap_or(0) != 0;
+    let fname = |p: i64| format!("p{p}.parquet");
+    let mut nalias = 0;
+    // a path name nobody has used yet for the same directory: path-keyed caches are cold for it
+    let mut alias = |p: i64| -> PathBuf {
+        nalias += 1;
+        let a = dir.join(format!("a{nalias}"));
+        std::os::unix::fs::symlink(&real, &a).unwrap();
+        a.join(fname(p))
+    };
     let mut long_lived: HashMap<i64, query_engine::execution::ExecutionContext> = HashMap::new();
     let mut obs = Vec::new();
     for st in case["steps"].as_array().unwrap() {
         let p = st["p"].as_i64().unwrap();
-        let path = path_of(p);
+        let path = real.join(fname(p));
         match st["a"].as_str().unwrap() {
             "write" => {
                 let v = st["v"].as_i64().unwrap() as usize;
@@ -265,31 +347,34 @@ fn run_history(rt: &tokio::runtime::Runtime, case: &Value, dir: &Path, images: &
                 obs.push(json!({"a": "write", "len": images.target[c]}));
             }
             "build" => {
-                let out = std::process::Command::new(exe)
-                    .arg("cache-build")
-                    .arg(&path)
-                    .env("QE_IPC_CACHE", "1")
-                    .env("RAYON_NUM_THREADS", "2")
-                    .output()
-                    .expect("spawn cache-build");
-                obs.push(json!({"a": "build", "exit": out.status.code(), "sidecar": sidecar_state(&path),
-                                "msg": String::from_utf8_lossy(&out.stderr).chars().take(200).collect::<String>()}));
+                let r = if xreal {
+                    let out = std::process::Command::new(exe).arg("cache-build").arg(&path).env("QE_IPC_CACHE", "1").env("RAYON_NUM_THREADS", "2").output().expect("spawn cache-build");
+                    json!({"built": out.status.code() == Some(0)})
+                } else {
+                    let a = alias(p);
+                    helper.lock().unwrap().build(&a)
+                };
+                obs.push(json!({"a": "build", "r": r, "sidecar": sidecar_state(&path)}));
             }
             "xquery" => {
-                // the same statements in a FRESH process of the same mode (QE_IPC_CACHE is inherited)
-                let out = std::process::Command::new(exe)
-                    .arg("cache-query")
-                    .arg(&path)
-                    .env("RAYON_NUM_THREADS", "2")
-                    .output()
-                    .expect("spawn cache-query");
-                let ans: Value = serde_json::from_slice(&out.stdout).unwrap_or_else(|_| {
-                    json!({"child_failed": {"exit": out.status.code(), "msg": String::from_utf8_lossy(&out.stderr).chars().take(300).collect::<String>()}})
-                });
+                // the same statements where no path-keyed cache entry exists: through a fresh alias of the
+                // directory in this process, or (xreal) in a fresh process of the same mode
+                let ans = if xreal {
+                    let out = std::process::Command::new(exe).arg("cache-query").arg(&path).env("RAYON_NUM_THREADS", "2").output().expect("spawn cache-query");
+                    serde_json::from_slice(&out.stdout).unwrap_or_else(|_| {
+                        json!({"child_failed": {"exit": out.status.code(), "msg": String::from_utf8_lossy(&out.stderr).chars().take(300).collect::<String>()}})
+                    })
+                } else {
+                    let a = alias(p);
+                    let mut c = query_engine::execution::ExecutionContext::new();
+                    match c.register_parquet("t", &a) {
+                        Ok(()) => four_statements(rt, &c),
+                        Err(e) => json!({"child_failed": {"msg": e.to_string()}}),
+                    }
+                };
                 obs.push(json!({"a": "xquery", "ans": ans, "sidecar": sidecar_state(&path)}));
             }
             "query" => {
-                let mut answers = serde_json::Map::new();
                 let mut fresh_ctx;
                 let ctx: &query_engine::execution::ExecutionContext = if shared {
                     if !long_lived.contains_key(&p) {
@@ -309,10 +394,8 @@ fn run_history(rt: &tokio::runtime::Runtime, case: &Value, dir: &Path, images: &
                     }
                     &fresh_ctx
                 };
-                for (kind, sql) in STATEMENTS.iter() {
-                    answers.insert(kind.to_string(), run_stmt(rt, ctx, sql));
-                }
-                obs.push(json!({"a": "query", "ans": answers, "sidecar": sidecar_state(&path)}));
+                let ans = four_statements(rt, ctx);
+                obs.push(json!({"a": "query", "ans": ans, "sidecar": sidecar_state(&path)}));
             }
             other => panic!("unknown step {other}"),
         }
@@ -335,6 +418,7 @@ pub fn replay(a: &[String]) -> i32 {
     let _ = std::fs::remove_dir_all(&run);
     std::fs::create_dir_all(&run).unwrap();
     let exe = std::env::current_exe().unwrap();
+    let helper = Arc::new(Mutex::new(Helper::spawn(&exe)));
     let rt = Arc::new(tokio::runtime::Builder::new_multi_thread().worker_threads(2).enable_all().build().unwrap());
     let cases = Arc::new(cases);
     let images: Arc<ImageCache> = Arc::new(Mutex::new(HashMap::new()));
@@ -342,7 +426,7 @@ pub fn replay(a: &[String]) -> i32 {
     let results: Arc<Mutex<Vec<Option<Value>>>> = Arc::new(Mutex::new(vec![None; cases.len()]));
     let mut hs = Vec::new();
     for _ in 0..threads {
-        let (rt, cases, next, results, run, images, exe) = (rt.clone(), cases.clone(), next.clone(), results.clone(), run.clone(), images.clone(), exe.clone());
+        let (rt, cases, next, results, run, images, exe, helper) = (rt.clone(), cases.clone(), next.clone(), results.clone(), run.clone(), images.clone(), exe.clone(), helper.clone());
         hs.push(std::thread::spawn(move || loop {
             let i = next.fetch_add(1, Ordering::SeqCst);
             if i >= cases.len() {
@@ -351,7 +435,7 @@ pub fn replay(a: &[String]) -> i32 {
             let dir = run.join(format!("h{i:06}"));
             let r = match catch(std::panic::AssertUnwindSafe(|| {
                 let im = images_for(&images, &cases[i]);
-                run_history(&rt, &cases[i], &dir, &im, &exe)
+                run_history(&rt, &cases[i], &dir, &im, &exe, &helper)
             })) {
                 Ok(v) => v,
                 Err(p) => {
